@@ -99,7 +99,7 @@ pub trait Grp: 'static {
 pub struct GA;
 pub struct GB;
 
-fn fq_roots_of_unity(i: usize) -> (F, &'static str) {
+pub fn fq_roots_of_unity(i: usize) -> (F, &'static str) {
     let q = zp::q();
     let g = BigUint::from(2u32); // 2 is a non-residue mod q, and not a cube
     let w = g.modpow(&((q - 1u32) / 3u32), q);
@@ -275,7 +275,15 @@ impl Grp for GB {
         k * p
     }
     fn lambda(s: &mut Src) -> (R2, &'static str) {
-        match s.choose(10) {
+        match s.choose(11) {
+            10 => {
+                // components related by a small root of unity of Fq: z = c + (zeta*c) u  (quadratic forms like c0^2 + c1^2
+                // or c0^2 + c0 c1 + c1^2 vanish on such lines)
+                let c = rf::f_from_big(&felt(s, Md::Q).v);
+                let c = if Fld::is_zero(&c) { F::one() } else { c };
+                let (zeta, _) = fq_roots_of_unity(1 + s.choose(5));
+                (R2::new(c, c.mul(&zeta)), "root-of-unity-line")
+            }
             8 | 9 => {
                 // component-wise boundary: z = a + b*u with a, b from {0, 1, -1, 2, boundary field element}
                 let comp = |s: &mut Src| -> F {
